@@ -420,7 +420,7 @@ def fs5(ctx):
         ctx.ok('no-slicing', b.span, 'the parser uses no panicking str slicing', nontrivial=False)
 
 
-@rule('FS6', ['C02', 'C17', 'C01'], floor=1, template='no-extra-filter')
+@rule('FS6', ['C02', 'C17', 'C01', 'C06'], floor=1, template='no-extra-filter')
 def fs6(ctx):
     """The scan tracks EVERY regular file whose name parses: the only ways to skip an entry are "not a
     regular file", "name not UTF-8" and "name rejected by the parser" (an untracked wal-N would collide
@@ -452,6 +452,17 @@ def fs6(ctx):
                 for (bj, pl, adt, edges) in b.discr_switches():
                     if place_path(known, pl) == [()] and 'None' in edges:
                         allowed.append(edges['None'])
+        # ... and what was collected reaches the tracker as it is: nothing removes numbers from the list afterwards
+        lst = set()
+        for ps in pushes:
+            al = ps.arg_local(0)
+            if al is not None:
+                from rules_codec import buf_id
+                lst.add(buf_id(b, al))
+        shrink = [c for c in b.calls if re.search(r'Vec::<u64>::(retain|retain_mut|truncate|drain|split_off|clear|pop|remove|swap_remove|dedup|dedup_by|dedup_by_key)$', c.name)
+                  and c.arg_local(0) is not None and buf_id(b, c.arg_local(0)) in lst and c.block not in L['blocks']]
+        ctx.check(not shrink, '%s:no-post-filter' % b.path, where(b, (shrink or pushes)[0].point), 'the list of file numbers is handed to the tracker as collected',
+                  'file numbers collected by the scan are removed again before the tracker is built (%s): those WAL files would be neither replayed nor ever reclaimed' % (method_name(shrink[0].name) if shrink else '-'))
         n += 1
         r = b.reach_after(hdr, avoid=set(ps.point for ps in pushes) | set(outside), avoid_edges=allowed)
         ctx.check(hdr not in r, '%s:only-three-skips' % b.path, where(b, pushes[0].point), 'an entry is skipped only if it is not a regular file, not UTF-8, or rejected by the name parser',
